@@ -3,23 +3,26 @@
    in == [vs |-> Seq(Item), prim |-> "int" | "str", mode |-> "from" | "map", dflt |-> "value" | "err"]
    Item: "l0".."l3" literal n; "lK" a literal written as the constant path K2 (= 2); patterns "p13" (1..=3 / "s1" | "s3"),
          "p24" (2 | 4), "ple1" (..=1), "pall" (_).  A last variant Z (literal 99) receives the `_ =>` default case when dflt = "value".
-   The test domain is -1..6 and 99 (covers every boundary of every pattern +/- 1); strings encode the same numbers as "s<n>". *)
+   The test domain is -2..6 and 99 (covers every boundary of every pattern +/- 1); strings encode the same numbers as "s<n>". *)
 EXTENDS Integers, Sequences, FiniteSets, TLC
 
 \* "dl1" / "dp13": a default literal 55 / default pattern 50..=60 written FIRST and a literal 1 / pattern 1..=3 dedicated to the counterpart type:
 \* the dedicated one is the one that counts (C05's rule for literal / pattern)
 \* "pK": a pattern that is a lone constant path, K4 (= 4)
-Items == {"l0", "l1", "l2", "l3", "lK", "p13", "p24", "ple1", "pall", "pK", "dl1", "dp13"}
-IsLit(it) == it \in {"l0", "l1", "l2", "l3", "lK", "dl1"}
-LitVal(it) == CASE it = "l0" -> 0 [] it = "l1" -> 1 [] it = "l2" -> 2 [] it = "l3" -> 3 [] it = "lK" -> 2 [] it = "dl1" -> 1
+\* "ln1": the literal -1 (two tokens: punct + literal); "pn10": the range -1..=0 ("s-1" | "s0"); "px13": the half-open range 1..3 (integers only)
+Items == {"l0", "l1", "l2", "l3", "lK", "p13", "p24", "ple1", "pall", "pK", "dl1", "dp13", "ln1", "pn10", "px13"}
+IsLit(it) == it \in {"l0", "l1", "l2", "l3", "lK", "dl1", "ln1"}
+LitVal(it) == CASE it = "l0" -> 0 [] it = "l1" -> 1 [] it = "l2" -> 2 [] it = "l3" -> 3 [] it = "lK" -> 2 [] it = "dl1" -> 1 [] it = "ln1" -> -1
 Matches(it, prim, x) ==
   CASE IsLit(it)   -> x = LitVal(it)
     [] it \in {"p13", "dp13"} -> IF prim = "int" THEN x >= 1 /\ x <= 3 ELSE x \in {1, 3}
     [] it = "p24"  -> x \in {2, 4}
     [] it = "pK"   -> x = 4
+    [] it = "pn10" -> x \in {-1, 0}
+    [] it = "px13" -> x \in {1, 2}
     [] it = "ple1" -> x <= 1
     [] it = "pall" -> TRUE
-Domain == (-1..6) \cup {99}
+Domain == (-2..6) \cup {99}
 N2S(i) == ToString(i)
 VName(i) == "V" \o N2S(i)
 
@@ -34,7 +37,7 @@ IntoExp(in, i) == IF IsLit(in.vs[i]) THEN LitVal(in.vs[i]) ELSE 70 + i
 RoundTrip(in, i) == FromExp(in, IntoExp(in, i))
 
 WellFormed(in) == /\ Len(in.vs) >= 1
-                  /\ (in.prim = "str" => \A i \in DOMAIN in.vs : in.vs[i] \notin {"ple1", "lK", "pK"})
+                  /\ (in.prim = "str" => \A i \in DOMAIN in.vs : in.vs[i] \notin {"ple1", "lK", "pK", "px13"})
 \* design-level theorem of the statement: with pairwise distinct literals and no pattern in front of a literal variant, the round trip is the identity
 DistinctLits(in) == \A i, j \in DOMAIN in.vs : i # j /\ IsLit(in.vs[i]) /\ IsLit(in.vs[j]) => LitVal(in.vs[i]) # LitVal(in.vs[j])
 RoundTripTheorem(in) == DistinctLits(in) =>
